@@ -499,7 +499,14 @@ def build_mutations(tier, seed, wd):
         p = os.path.join(wd, "m%06d.csv" % i)
         with open(p, "wb") as f:
             f.write(data)
-        secs = sorted(set(re.findall(r"^([A-Z.]+),", base, re.M)))
+        secs = set(re.findall(r"^([A-Z.]+),", base, re.M))
+        # the mutation may have changed a security's name (a 100-digit name, a NUL inside): a diagnostic that quotes
+        # the name as it stands in the mutated file does attribute the problem to that security
+        for line in data.decode("utf-8", "replace").split("\n")[1:400]:
+            cell = line.split(",")[0].strip().strip('"')
+            if cell and len(cell) <= 300:
+                secs.add(cell)
+        secs = sorted(secs)
         feat = "mutation:" + kind
         if kind == "big_repeat" and b"Split" in data[:2000]:
             # hundreds of compounding splits take balances far beyond 1e12 (see KF-C05-decimal-overflow)
